@@ -12,6 +12,7 @@ import (
 	"os"
 	"sort"
 	"strings"
+	"sync/atomic"
 	"testing"
 	"time"
 
@@ -426,6 +427,31 @@ func RunWorker(t *testing.T) {
 			writeJSON(outPath, out)
 		}
 	}()
+	// Watchdog (a plain goroutine outside any bubble): if the simulation makes no
+	// scheduling progress for a long time, some goroutine is blocked in a way the bubble
+	// cannot see (e.g. on a sync primitive the instrumenter does not know). That is an
+	// infrastructure problem of this run, reported as such - never a pass, never a violation.
+	stallLimit := time.Duration(envInt("VERIF_STALL_S", 90)) * time.Second
+	go func() {
+		last, lastChange := verifsim.Progress(), time.Now()
+		for {
+			time.Sleep(2 * time.Second)
+			if atomic.LoadInt32(&workerDone) != 0 {
+				return
+			}
+			if p := verifsim.Progress(); p != last {
+				last, lastChange = p, time.Now()
+			} else if time.Since(lastChange) > stallLimit {
+				out.Infra = fmt.Sprintf("simulation stalled for %v during run %s: a goroutine is blocked where the bubble cannot see it (uninstrumented blocking construct?)", stallLimit, curID)
+				st.WallS = time.Since(start).Seconds()
+				if outPath != "" {
+					writeJSON(outPath, out)
+				}
+				fmt.Println("INFRA: " + out.Infra)
+				os.Exit(3)
+			}
+		}
+	}()
 	for i := 0; i < maxRuns; i++ {
 		if time.Since(start) > budget {
 			break
@@ -491,11 +517,14 @@ func RunWorker(t *testing.T) {
 		}
 	}
 	finished = true
+	atomic.StoreInt32(&workerDone, 1)
 	st.WallS = time.Since(start).Seconds()
 	if outPath != "" {
 		writeJSON(outPath, out)
 	}
 }
+
+var workerDone int32
 
 func fnv64(s string) uint64 {
 	h := uint64(14695981039346656037)
